@@ -149,6 +149,7 @@ fn main() {
     let seed = rcfg.seed;
     let rt = Runtime::install(rcfg);
     simrt::install_panic_hook(rt, args.has("verbose"));
+    simrt::install_crash_reporter();
     {
         let out = out.clone();
         let knobs = knobs.clone();
